@@ -22,6 +22,11 @@ func (r RemoveIntersections) Process(schemas []*ast.Schema) ([]*ast.Schema, erro
 }
 
 func (r RemoveIntersections) processSchema(v *Visitor, schema *ast.Schema) (*ast.Schema, error) {
+	// what was collected for the previous schema must not leak into this one:
+	// objects are identified by name only
+	clear(r.objectsToRemove)
+	clear(r.arraysToFix)
+
 	var foundErr error
 	schema.Objects.Iterate(func(key string, value ast.Object) {
 		if value.Type.IsRef() {
